@@ -103,7 +103,7 @@ class Class:
 
 
 class Repo:
-    def __init__(self, root=None, package="rpyc", overrides=None):
+    def __init__(self, root=None, package="rpyc", overrides=None, inline=True):
         self.root = os.path.abspath(root or os.environ.get("VERIF_REPO", "/repo"))
         self.package = package
         self.overrides = overrides or {}
@@ -129,6 +129,40 @@ class Repo:
                     with open(path, encoding="utf8") as f:
                         text = f.read()
                 self.modules[modname] = Module(modname, path, rel, text)
+        self._index_all()
+        self.inlined = []
+        if inline:
+            from . import inline as INL
+            known = INL.load_known()
+            if known is not None:
+                inl = INL.Inliner(self, known)
+                dissolved = inl.run()
+                if inl.inlined_sites:
+                    for q in dissolved:
+                        f = self.funcs[q]
+                        self._remove_def(f)
+                    self.inlined = sorted(inl.inlined_sites)
+                    for m in self.modules.values():
+                        A.set_parents(m.tree)
+                        for n in ast.walk(m.tree):
+                            if not hasattr(n, "_module"):
+                                n._module = m
+                    self._index_all()
+
+    def _remove_def(self, f):
+        node = f.node
+        par = getattr(node, "_parent", None)
+        for fld in ("body", "orelse", "finalbody"):
+            lst = getattr(par, fld, None)
+            if isinstance(lst, list) and node in lst:
+                lst.remove(node)
+                if not lst:
+                    lst.append(ast.Pass())
+                return
+
+    def _index_all(self):
+        self.funcs = {}
+        self.classes = {}
         for m in self.modules.values():
             self._index_scope(m, m.tree.body, m.name, None, None, toplevel=True)
         for c in self.classes.values():
